@@ -408,3 +408,25 @@ func GoodFold(p, volume string) (string, bool) {
 	}
 	return strings.TrimPrefix(p, volume), true
 }
+
+// ---- lockleak: no return with the mutex held (R17.10)
+
+func (t *Table) GoodLeak(k string) error {
+	t.mu.Lock()
+	defer t.mu.Unlock()
+	if k == "" {
+		return errors.New("empty key")
+	}
+	t.m[k] = true
+	return nil
+}
+
+func (t *Table) BadLeak(k string) error {
+	t.mu.Lock()
+	if k == "" {
+		return errors.New("empty key") // forgot the Unlock
+	}
+	t.m[k] = true
+	t.mu.Unlock()
+	return nil
+}
